@@ -42,6 +42,18 @@ CHECKS = [
         "Generated histories (random and targeted carry-over shapes) of config rewrites/deletions/corruptions and calls in one process, ts and nts builds: every call's effect on every sink must equal that of the same call made first in a fresh process; ASan for double frees; heap equality between identical trailing calls in plain builds.",
         "Data sources that legitimately differ between two processes (pid, tid, time) are excluded from formats; pid in the devlog prefix normalised.",
         "stateful property-based testing with a fresh-process differential oracle"),
+    chk("C14", "exploration",
+        "Generated (sequence of real uids assumed by one process, unrelated effective uid, uid list with near misses) cases; each of only_uid/exclude_uid/only_root is consulted by a real wrapped exec under that uid and compared with set membership; complementarity checked.",
+        "Runs as root with saved uid 0; list items are valid uids (0..2^32-2).",
+        "property-based testing with membership oracle in setuid children"),
+    chk("C15", "exploration",
+        "Generated process chains (depth 1..12, prctl names with spaces/parentheses/prefixes/empty) and name lists; the leaf's wrapped exec is logged iff no proper ancestor (as read by the harness from /proc at call time) is listed.",
+        "Names without ','; empty-named ancestors count as unreadable tree.",
+        "property-based testing with oracle computed from /proc in the same process"),
+    chk("C16", "exploration",
+        "Generated configurations (all outputs incl. failing sinks, all data sources, filters, duplicate/continuation options) x exec inputs x repeated identical calls after warm-up; fd table, live heap, environ, cwd, umask, signal mask/handlers compared before the call, at real-exec entry and after return; zero growth demanded.",
+        "Plain -O2 builds (ts and nts); heap via mallinfo2 with tcache disabled; error paths via real failing sinks, not syscall injection.",
+        "property-based testing with state-invariant oracle over repeated calls"),
 ]
 
 _PENDING = "check not built yet in this stage of the work (planned in DESIGN.md section 3); will be claimed once its check exists"
